@@ -407,6 +407,13 @@ def Atom.isDT : Atom → Bool | .date _ => true | .dtm _ => true | .time _ => tr
 def Atom.isBin : Atom → Bool | .hex _ => true | .b64 _ => true | _ => false
 def Atom.durVal : Atom → Int × Int
   | .dur m s => (m, s) | .ymd m => (m, 0) | .dtd s => (0, s) | _ => (0, 0)
+/-- `op.tzinfo = context.timezone` on a copy (base.py:602-615): a value without timezone takes the
+implicit timezone of the dynamic context, the local clock reading is unchanged -/
+def DT.fill (itz : Option Int) (d : DT) : DT :=
+  match d.tz, itz with
+  | none, some z => { d with tz := some z }
+  | _, _ => d
+
 def Atom.dt : Atom → DT | .date v => v | .dtm v => v | .time v => v | _ => ⟨0, none⟩
 def Atom.binVal : Atom → List Nat | .hex b => b | .b64 b => b | _ => []
 /-- `QName.qname` -/
@@ -731,11 +738,25 @@ def iterCheck (a b : Atom) : Except PyR (Atom × Atom) :=
   | .error e => .error e
   | .ok p => if categoryOK a b then .ok p else .error .typeErr
 
+def Atom.fillTz (itz : Option Int) : Atom → Atom
+  | .date v => .date (v.fill itz) | .dtm v => .dtm (v.fill itz) | .time v => .time (v.fill itz)
+  | a => a
+
+/-- base.py:602-615 `implicit_timezone_operands`: only when both operands are date/time values (and
+the context has an implicit timezone: `DT.fill none` is the identity) -/
+def fillPair (itz : Option Int) (a b : Atom) : Atom × Atom :=
+  if a.isDT && b.isDT then (a.fillTz itz, b.fillTz itz) else (a, b)
+
 /-- the comparison of one generated pair in the non-compatibility loop -/
 def pairGeneral (m : Mode) (op : Op) (a b : Atom) : R :=
   match iterCheck a b with
   | .error e => liftPy e
   | .ok (x, y) => liftPy (pyOp m op x y)
+
+/-- the same under a dynamic context with implicit timezone `itz` (minutes; none = no implicit
+timezone): `yield self.implicit_timezone_operands(context, op1, op2)` before the operator -/
+def pairGeneralCtx (itz : Option Int) (m : Mode) (op : Op) (a b : Atom) : R :=
+  pairGeneral m op (fillPair itz a b).1 (fillPair itz a b).2
 
 /-- `any(op(x1, x2) for x1, x2 in …)`: left-to-right, first error or first True wins -/
 def anyPairs (f : Atom → Atom → R) : List (Atom × Atom) → R
@@ -792,7 +813,7 @@ def mapFloat : List Atom → Except PyR (List D)
 /-- base.py:547-553 and the shared loop: compatibility mode without a single-boolean operand —
 ordering operators compare `float()` of every item, `=`/`!=` compare the raw Python objects in 1.0
 and go through the type-checking loop in 2.0 compatibility mode -/
-def compatLoop (m : Mode) (op : Op) (l r : List Atom) : R :=
+def compatLoopWith (pg : Atom → Atom → R) (m : Mode) (op : Op) (l r : List Atom) : R :=
   if op.isOrd then
     match mapFloat l with
     | .error e => liftPy e
@@ -800,7 +821,10 @@ def compatLoop (m : Mode) (op : Op) (l r : List Atom) : R :=
       | .error e => liftPy e
       | .ok rs => anyPairs (fun a b => liftPy (pyOp m op a b)) (product (ls.map .dbl) (rs.map .dbl))
   else if m = .v1 then anyPairs (fun a b => liftPy (pyOp m op a b)) (product l r)
-  else anyPairs (pairGeneral m op) (product l r)
+  else anyPairs pg (product l r)
+
+/-- without an implicit timezone -/
+def compatLoop (m : Mode) (op : Op) (l r : List Atom) : R := compatLoopWith (pairGeneral m op) m op l r
 
 /-- the operand is one atomic xs:boolean: `isinstance(values[0], bool) and len(values) == 1` -/
 def singleBool? : List Atom → Option Bool
@@ -808,7 +832,7 @@ def singleBool? : List Atom → Option Bool
   | _ => none
 
 /-- base.py:516-584 + _xpath1_operators.py:84-102: general comparison of two sequences -/
-def generalCmp (m : Mode) (op : Op) (L Rr : List Item) : R :=
+def generalCmpWith (pg : Atom → Atom → R) (m : Mode) (op : Op) (L Rr : List Item) : R :=
   let l := L.map (atomize m)
   let r := Rr.map (atomize m)
   if m.compat then
@@ -826,8 +850,16 @@ def generalCmp (m : Mode) (op : Op) (L Rr : List Item) : R :=
             (match ebvList (l.map .atom) with
              | .error e => .error e
              | .ok x => liftPy (pyOp m op (.bool x) (.bool y)))
-          | none => compatLoop m op l r
-  else anyPairs (pairGeneral m op) (product l r)
+          | none => compatLoopWith pg m op l r
+  else anyPairs pg (product l r)
+
+/-- general comparison in a context without implicit timezone -/
+def generalCmp (m : Mode) (op : Op) (L Rr : List Item) : R := generalCmpWith (pairGeneral m op) m op L Rr
+
+/-- general comparison in a context with implicit timezone `itz` (the 1.0 `product` path and the
+float path of the compatibility branch never fill the timezone) -/
+def generalCmpCtx (itz : Option Int) (m : Mode) (op : Op) (L Rr : List Item) : R :=
+  generalCmpWith (pairGeneralCtx itz m op) m op L Rr
 
 /-- Python class identity used by `cls0 is cls1` -/
 inductive Cls where
@@ -881,6 +913,11 @@ def valuePair (m : Mode) (op : Op) (a b : Atom) : R :=
     else if a.isDur && b.isDur && (op = .eq || op = .ne) then fin a b
     else .error .XPTY0004
 
+/-- value comparison of two atoms under implicit timezone `itz`
+(`operands[:] = self.implicit_timezone_operands(context, *operands)` before the operator) -/
+def valuePairCtx (itz : Option Int) (m : Mode) (op : Op) (a b : Atom) : R :=
+  valuePair m op (fillPair itz a b).1 (fillPair itz a b).2
+
 /-- base.py:496-514 `get_atomized_operand`: none = empty operand -/
 def atomizedOperand (m : Mode) : List Item → Except Err (Option Atom)
   | [] => .ok none
@@ -890,7 +927,7 @@ def atomizedOperand (m : Mode) : List Item → Except Err (Option Atom)
   | _ :: _ :: _ => .error .XPTY0004
 
 /-- value comparison of two sequences: `none` = the empty sequence -/
-def valueCmp (m : Mode) (op : Op) (L Rr : List Item) : Except Err (Option Bool) :=
+def valueCmpWith (vp : Atom → Atom → R) (m : Mode) (L Rr : List Item) : Except Err (Option Bool) :=
   match atomizedOperand m L with
   | .error e => .error e
   | .ok x =>
@@ -898,8 +935,14 @@ def valueCmp (m : Mode) (op : Op) (L Rr : List Item) : Except Err (Option Bool) 
     | .error e => .error e
     | .ok y =>
       match x, y with
-      | some a, some b => (valuePair m op a b).map some
+      | some a, some b => (vp a b).map some
       | _, _ => .ok none
+
+def valueCmp (m : Mode) (op : Op) (L Rr : List Item) : Except Err (Option Bool) :=
+  valueCmpWith (valuePair m op) m L Rr
+
+def valueCmpCtx (itz : Option Int) (m : Mode) (op : Op) (L Rr : List Item) : Except Err (Option Bool) :=
+  valueCmpWith (valuePairCtx itz m op) m L Rr
 
 /-! ### logic (and/or/not/if evaluate through boolean_value on the selected iterator) -/
 
